@@ -1,5 +1,6 @@
 import Dashu.Proofs.Trans.Powi
 import Dashu.Proofs.Trans.PowiNeg
+import Dashu.Proofs.Trans.PowiUnlimited
 import Mathlib.Tactic.NormNum
 /-
   C11, DESIGN §8 item 2 — `Context::powi` with a NON-NEGATIVE exponent `n ≥ 2` at a limited precision
@@ -125,6 +126,30 @@ theorem powi_directed_counterexample :
     unfold FRepr.toRat; rw [bpowQ_eq_zpow]; norm_num
   rw [e1, e2, bpowQ_eq_zpow]
   norm_num [abs_lt]
+
+/-! ### unlimited precision (`self.precision = 0`), non-negative exponent: the `else` arm `Context::<R>::new(0)` of
+    `let work_context = if self.is_limited() {…}` runs the same loop at working precision 0 -/
+
+/-- one step of the loop at precision 0 (`Context::new(0).sqr` / `.mul`) is the exact square / product, flagged
+    Exact — with the pre-shrink of `mul.rs` (`fixed = false`, the code as it is: guarded by `p ≠ 0`) or without -/
+theorem unlimited_step_exact (fixed : Bool) (B : Nat) (hB : 0 < B) (m : Mode) (c : Coarse) (a b : FRepr) :
+    ((ctxSqr fixed B m c 0 a).1.toRat B = a.toRat B * a.toRat B ∧ (ctxSqr fixed B m c 0 a).2 = none) ∧
+    ((ctxMul fixed B m c 0 a b).1.toRat B = a.toRat B * b.toRat B ∧ (ctxMul fixed B m c 0 a b).2 = none) :=
+  ⟨ctxSqr_unlimited fixed B hB m c a, ctxMul_unlimited fixed B hB m c a b⟩
+
+/-- statement review (c): `powi` with a non-negative exponent `n ≥ 1` at UNLIMITED precision answers exactly — the
+    mirrored powering loop at working precision 0 returns `base^n` for every base `B ≥ 1`, mode, operand and exponent,
+    and the closing `with_precision(0)` returns that value unchanged, flagged Exact.  No hypothesis on the operand. -/
+theorem powi_unlimited_exact (fixed : Bool) (B : Nat) (hB : 0 < B) (m : Mode) (c : Coarse) (base : FRepr)
+    (n : Nat) (hn : 1 ≤ n) :
+    (powLoop fixed B m c 0 base (lowBits n) base).toRat B = (base.toRat B) ^ n ∧
+    reprRound B m c 0 (powLoop fixed B m c 0 base (lowBits n) base)
+      = (powLoop fixed B m c 0 base (lowBits n) base, none) :=
+  Dashu.Model.Trans.powi_unlimited_exact fixed B hB m c base n hn
+
+/-- the loop as run at precision 0: `(3·10⁻¹)^5 = 243·10⁻⁵` (mode Down, code as it is); `(−7·2³)^6` -/
+example : powLoop false 10 .down coarseNone 0 ⟨3, -1⟩ (lowBits 5) ⟨3, -1⟩ = ⟨243, -5⟩ := by decide +kernel
+example : powLoop false 2 .halfEven coarseNone 0 ⟨-7, 3⟩ (lowBits 6) ⟨-7, 3⟩ = ⟨117649, 18⟩ := by decide +kernel
 
 /-- a base in `{0, 1, −1}`: `x^k = x^(unitExp k)` for every integer exponent with `|k| ≥ 4` (same sign, same parity) — the
     reduction the driver uses to decide `powi` of such a base for multi-word exponents -/
